@@ -123,7 +123,7 @@ func genC03(rng *rand.Rand, n int, emit func(Case), dist map[string]int) {
 							if r2.method != rNF && rKey(rRoute{"", r2.pattern}) == rKey(rRoute{"", r.pattern}) {
 								shared = true
 							}
-							if r2.method != rNF && rKey(rRoute{"", r2.pattern}) != rKey(rRoute{"", r.pattern}) && rMatch(r2.pattern, rp) {
+							if r2.method != rNF && rKey(rRoute{"", r2.pattern}) != rKey(rRoute{"", r.pattern}) && rMatchQ(r2.pattern, rp) { // (as the router matches: a trailing parameter takes the rest)
 								other = true
 							}
 						}
